@@ -83,7 +83,7 @@ mod verif_kani {
         assert!(bs.to_f32(ord(O)).to_bits() == x);
         std::mem::forget(bs);
     }
-    //@family name=c05_f32 fn=c05_f32 props=C05 kind=family unwind=12 O=0,1
+    //@family name=c05_f32 fn=c05_f32 props=C05,C07 kind=family unwind=12 O=0,1
     fn c05_f64<const O: usize>() {
         let x: u64 = kani::any();
         let bs = Bitstr::from_f64(f64::from_bits(x), ord(O));
@@ -91,7 +91,7 @@ mod verif_kani {
         assert!(bs.to_f64(ord(O)).to_bits() == x);
         std::mem::forget(bs);
     }
-    //@family name=c05_f64 fn=c05_f64 props=C05 kind=family unwind=12 O=0,1
+    //@family name=c05_f64 fn=c05_f64 props=C05,C07 kind=family unwind=12 O=0,1
 
     // float decoding at bit offset K equals decoding the same 32/64 bits read as bytes
     fn c05_f32_at<const K: usize, const O: usize>() {
@@ -104,7 +104,7 @@ mod verif_kani {
         assert!(bs.to_f32(ord(O)).to_bits() == want.to_bits());
         std::mem::forget(bs);
     }
-    //@family name=c05_f32_at fn=c05_f32_at props=C05 kind=family unwind=12 K=q:0,1,4,7;t:0-7 O=0,1
+    //@family name=c05_f32_at fn=c05_f32_at props=C05,C07 kind=family unwind=12 K=q:0,1,4,7;t:0-7 O=0,1
     fn c05_f64_at<const K: usize, const O: usize>() {
         let bytes: [u8; 9] = kani::any();
         let bs = Bitstr { range: K..K + 64, data: Rc::new(Cow::Owned(bytes.to_vec())) };
@@ -115,7 +115,7 @@ mod verif_kani {
         assert!(bs.to_f64(ord(O)).to_bits() == want.to_bits());
         std::mem::forget(bs);
     }
-    //@family name=c05_f64_at fn=c05_f64_at props=C05 kind=family unwind=12 K=q:0,1,4,7;t:0-7 O=0,1
+    //@family name=c05_f64_at fn=c05_f64_at props=C05,C07 kind=family unwind=12 K=q:0,1,4,7;t:0-7 O=0,1
 
     //@harness name=c05_to_int_empty props=C05,C08 kind=complete
     #[kani::proof]
